@@ -1811,8 +1811,9 @@ static size_t ZSTD_estimateCCtxSize_internal(int compressionLevel)
 size_t ZSTD_estimateCCtxSize(int compressionLevel)
 {
     int level;
+    int const lastLevel = MIN(compressionLevel, ZSTD_maxCLevel());   /* levels beyond the maximum compress like the maximum */
     size_t memBudget = 0;
-    for (level=MIN(compressionLevel, 1); level<=compressionLevel; level++) {
+    for (level=MIN(compressionLevel, 1); level<=lastLevel; level++) {
         /* Ensure monotonically increasing memory usage as compression level increases */
         size_t const newMB = ZSTD_estimateCCtxSize_internal(level);
         if (newMB > memBudget) memBudget = newMB;
@@ -1870,8 +1871,9 @@ static size_t ZSTD_estimateCStreamSize_internal(int compressionLevel)
 size_t ZSTD_estimateCStreamSize(int compressionLevel)
 {
     int level;
+    int const lastLevel = MIN(compressionLevel, ZSTD_maxCLevel());   /* levels beyond the maximum compress like the maximum */
     size_t memBudget = 0;
-    for (level=MIN(compressionLevel, 1); level<=compressionLevel; level++) {
+    for (level=MIN(compressionLevel, 1); level<=lastLevel; level++) {
         size_t const newMB = ZSTD_estimateCStreamSize_internal(level);
         if (newMB > memBudget) memBudget = newMB;
     }
